@@ -101,6 +101,34 @@ class pre_run_never_added(Contract):
 
 
 # ----------------------------------------------------------------------------------------------------------------------
+# BaseAlgorithm.set_run_params: binds exactly the object it is given, returns the algorithm, touches nothing else (what a run
+# may depend on is what was bound here and by _set_data)
+# ----------------------------------------------------------------------------------------------------------------------
+
+@register
+class set_run_params(Contract):
+    witness = _witness
+    qualname = "pyoma2.algorithms.base.BaseAlgorithm.set_run_params"
+    props = ("C15",)
+    generic_replay = False
+    bounded_driver = {"driver": "c15_gating", "inputs": {}}
+    compare_state = False
+    callable_modular = False
+
+    def setup(self, c):
+        o, _ = _alg(c, FDD, "a")
+        new = Obj("rp", {"sel_freq": None, "DF": None}, label="new.rp")
+        c.memo["ghost:new_rp"] = new
+        return {"self": o, "run_params": new}
+
+    def check(self, c, pre, post, outcome):
+        c.oblige("post", "returns the algorithm itself", outcome[0] == "return" and outcome[1] is post["self"], {"outcome": str(outcome)[:80]})
+        c.oblige("post", "binds the object it was given (no copy, no other object)", post["self"].fields.get("run_params") is c.memo["ghost:new_rp"])
+        _same_fields(c, "self", pre["self"], post["self"], skip=("run_params",))
+        _same_fields(c, "run_params", pre["run_params"], c.memo["ghost:new_rp"])
+
+
+# ----------------------------------------------------------------------------------------------------------------------
 # BaseSetup.run_by_name / run_all / mpe: run() and the algorithms' mpe are havoc'ed (may raise, return a fresh value)
 # ----------------------------------------------------------------------------------------------------------------------
 
